@@ -328,10 +328,6 @@ UPGRADER:
 			return ErrInvalidHTTPStatus
 		case stateStatus:
 			switch c {
-			case ' ':
-				if p.status == "" {
-					p.status = string(data[start:i])
-				}
 			case '\r':
 				if p.status == "" {
 					p.status = string(data[start:i])
